@@ -12,9 +12,16 @@
            {a:"View", views:[{docs:[..]}]}                                 admin view after concurrent writers stopped (no model step)
            {a:"Cont", u, req, ao, resp:[{rows}]}                           everything a continuous feed delivered while writers were
                                                                          racing and until a generous bound after they stopped
+           {a:"Late", u, req, ao, resp:[{pages:[{rows}]}]}                 a continuous feed over a change cache that is fed out of order
+                                                                         (sequences skipped, then arriving late); pages = the rows of
+                                                                         each iteration of the feed (split at its "caught up" markers)
    rows = [{seq (string), tok:[l,t,s], doc, rev, removed:[..], del}].  A per-configuration element that is identical to
    the first configuration's is logged as {eq:true}.
-   Pass P: the C01 predicates of Changes.tla evaluated on the recorded rows against the recorded admin view.
+   Pass P: the C01 predicates of Changes.tla evaluated on the recorded rows against the ground truth: channel membership,
+   departures (which channel was left at which sequence) and deletions follow from the recorded INPUTS (the writes, applied by
+   PutDoc/DeleteDoc/...: a departure is stamped once, when it happens); sequences and revision identities are the recorded
+   real ones.  (Documents written by concurrent writers or directly into the bucket have no input history: for them the
+   recorded admin view is the truth.)
    Pass C: the document bookkeeping and the rows equal the model's (PutDoc/... and RefFeed), revisions aside. *)
 EXTENDS Changes, TraceLib
 
@@ -90,7 +97,10 @@ PView  == /\ Ev("View")
 PCont  == /\ Ev("Cont")
           /\ cur' = Req("Cont") @@ [S |-> 0, lim |-> 0, resp |-> RespRows]
           /\ UNCHANGED <<vars, docsC, base>>
-PNext == Reset \/ Begin \/ PWrite \/ PBase \/ PSince \/ PPages \/ PView \/ PCont
+PLate  == /\ Ev("Late")
+          /\ cur' = Req("Late") @@ [S |-> 0, lim |-> 0, pages |-> RespPages]
+          /\ UNCHANGED <<vars, docsC, base>>
+PNext == Reset \/ Begin \/ PWrite \/ PBase \/ PSince \/ PPages \/ PView \/ PCont \/ PLate
 PSpec == TInit /\ [][PNext]_tvars
 
 -----------------------------------------------------------------------------
@@ -112,7 +122,7 @@ CSince == PSince /\ LET ref == NoRev(RefFeed(docs, VC1, Safe(Mk(T.tok[1], T.tok[
                     \A i \in 1..NCfg : NoRev(cur'.resp[i]) = ref
 CPages == PPages /\ LET ref == NoRev(RefFeed(docs, VC1, Safe(Mk(T.tok[1], T.tok[2], T.tok[3])), 0, T.ao)) IN
                     \A i \in 1..NCfg : NoRev(Concat(cur'.pages[i])) = ref
-CNext == Reset \/ Begin \/ CWrite \/ CBase \/ CSince \/ CPages \/ PView \/ PCont
+CNext == Reset \/ Begin \/ CWrite \/ CBase \/ CSince \/ CPages \/ PView \/ PCont \/ PLate
 CSpec == TInit /\ [][CNext]_tvars
 
 Progress == Mark(l)
@@ -123,16 +133,20 @@ Accept == PrintHWM
 IsReq == cur.kind \in {"Base", "Since", "Pages"}
 VC == VisChans(grants, cur.u, cur.req)
 (* configurations whose answer or documents differ from the first one's (equal ones need no second evaluation) *)
-Cfgs == {1} \cup {i \in 1..NCfg : docsC[i] # docsC[1] \/ (IF cur.kind = "Pages" THEN cur.pages[i] # cur.pages[1] ELSE cur.resp[i] # cur.resp[1])}
+Paged == cur.kind \in {"Pages", "Late"}
+Cfgs == {1} \cup {i \in 1..NCfg : docsC[i] # docsC[1] \/ (IF Paged THEN cur.pages[i] # cur.pages[1] ELSE cur.resp[i] # cur.resp[1])}
+(* ground truth of configuration i (see the header) *)
+Truth(i) == [d \in DOMAIN docsC[i] |->
+               IF d \in DOMAIN docs /\ docs[d].seq > 0 THEN [docs[d] EXCEPT !.rev = docsC[i][d].rev] ELSE docsC[i][d]]
 (* all row lists of the current line, per configuration *)
-Lists(i) == IF cur.kind = "Pages" THEN {cur.pages[i][j] : j \in 1..Len(cur.pages[i])} ELSE {cur.resp[i]}
+Lists(i) == IF Paged THEN {cur.pages[i][j] : j \in 1..Len(cur.pages[i])} ELSE {cur.resp[i]}
 
-RSound == IsReq => \A i \in Cfgs : \A R \in Lists(i) : Sound(docsC[i], VC, R)
+RSound == IsReq => \A i \in Cfgs : LET DS == Truth(i) IN \A R \in Lists(i) : Sound(DS, VC, R, cur.S)
 ROrdered == IsReq => \A i \in Cfgs : \A R \in Lists(i) : Ordered(R)
 RCompleteCur ==
-  cur.kind \in {"Base", "Since"} => \A i \in Cfgs : CompleteCur(docsC[i], VC, cur.resp[i], cur.S, cur.lim, cur.ao)
+  cur.kind \in {"Base", "Since"} => \A i \in Cfgs : CompleteCur(Truth(i), VC, cur.resp[i], cur.S, cur.lim, cur.ao)
 RRemovalNoticed ==
-  cur.kind \in {"Base", "Since"} => \A i \in Cfgs : RemovalNoticed(docsC[i], VC, cur.resp[i], cur.S, cur.lim, cur.ao)
+  cur.kind \in {"Base", "Since"} => \A i \in Cfgs : RemovalNoticed(Truth(i), VC, cur.resp[i], cur.S, cur.lim, cur.ao)
 (* resuming from any position (plain or compound token), with or without a limit, yields the same entries *)
 RResumeConsistent ==
   cur.kind = "Since" => \A i \in Cfgs : LimitPrefix(base[i], cur.resp[i], cur.S, cur.lim)
@@ -140,10 +154,19 @@ RPagingConsistent ==
   cur.kind = "Pages" => \A i \in Cfgs : PagingConsistent(base[i], cur.pages[i], cur.S, cur.lim)
 (* the answer does not depend on cache state *)
 RConfigIndependent ==
-  IsReq => \A i \in 1..NCfg : IF cur.kind = "Pages" THEN cur.pages[i] = cur.pages[1] ELSE cur.resp[i] = cur.resp[1]
+  IsReq => \A i \in 1..NCfg : IF Paged THEN cur.pages[i] = cur.pages[1] ELSE cur.resp[i] = cur.resp[1]
 (* a continuous request eventually delivers the current revision of every visible document without being re-issued *)
 REventually ==
-  cur.kind = "Cont" => \A i \in 1..NCfg : CompleteCur(docsC[i], VC, cur.resp[i], 0, 0, FALSE)
+  /\ cur.kind = "Cont" => \A i \in 1..NCfg : CompleteCur(Truth(i), VC, cur.resp[i], 0, 0, FALSE)
+  /\ cur.kind = "Late" => \A i \in 1..NCfg : CompleteCur(Truth(i), VC, Concat(cur.pages[i]), 0, 0, FALSE)
+(* a continuous feed over late-arriving sequences: every iteration in increasing order, no entry delivered twice,
+   nothing from invisible channels *)
+RLateOrdered == cur.kind = "Late" => \A i \in 1..NCfg : \A j \in 1..Len(cur.pages[i]) : Ordered(cur.pages[i][j])
+RLateNoDup ==
+  cur.kind = "Late" => \A i \in 1..NCfg :
+    LET R == Concat(cur.pages[i]) IN
+    \A a, b \in 1..Len(R) : (a # b) => ~(R[a].doc = R[b].doc /\ R[a].tok.s = R[b].tok.s)
+RLateSound == cur.kind = "Late" => \A i \in 1..NCfg : \A j \in 1..Len(cur.pages[i]) : Sound(Truth(i), VC, cur.pages[i][j], 0)
 (* auxiliary: the four databases hold the same documents *)
 ViewsAgree == \A i, j \in 1..Len(docsC) : docsC[i] = docsC[j]
 =============================================================================
